@@ -518,7 +518,7 @@ func runCheck(id, tier string) int {
 		status := "confirmed"
 		if vr.c != nil && vr.c.out != nil {
 			o := vr.c.out
-			repro := (v.Kind == "assert" && o.Failed == v.Label) || (v.Kind == "panic" && o.Panic != "")
+			repro := (v.Kind == "assert" && o.Failed == v.Label) || (v.Kind == "panic" && o.Panic != "") || (v.Kind == "nonterm" && o.Timeout)
 			if !repro && hasEngineOnly(v.Script, "maporder", "select", "pool") {
 				// Go's map order is random: retry natively
 				for try := 0; try < 40 && !repro; try++ {
@@ -527,7 +527,7 @@ func runCheck(id, tier string) int {
 						break
 					}
 					o = one[0].out
-					repro = (v.Kind == "assert" && o.Failed == v.Label) || (v.Kind == "panic" && o.Panic != "")
+					repro = (v.Kind == "assert" && o.Failed == v.Label) || (v.Kind == "panic" && o.Panic != "") || (v.Kind == "nonterm" && o.Timeout)
 				}
 			}
 			if !repro && strings.Contains(o.Desync, "engine-only") {
